@@ -394,7 +394,7 @@ Definition chk_C05 (cfg : config) (h : history) (obs : list oobs) : list viol :=
 (* codes: 901 Provide of an already provided (or internally duplicated) single key was not rejected
           902 Provide rejected as duplicate although no single key conflicts
           903 Provide with no result keys accepted
-          1201 Decorate of an already decorated key accepted   1202 Decorate rejected without a conflict *)
+          1201 Decorate of an already decorated key (or returning a key twice) accepted   1202 Decorate rejected without a conflict *)
 Fixpoint has_dup_key (seen ks : list key) : bool :=
   match ks with
   | [] => false
@@ -416,7 +416,8 @@ Definition chk_keys_op (r : registry) (o : op) (ob : oobs) : list nat :=
       (if d then guardb (negb (accepted ob)) 901 else guardb (negb (is_dup_verdict (oo_verdict ob))) 902) ++
       (if is_nil (sig_keys (pi_sig p)) then guardb (negb (accepted ob)) 903 else [])
   | ODecorate s p =>
-      let conflict := existsb (fun k => existsb (fun d => Nat.eqb (sd_home d) s && decorates d k) (r_decs r))
+      let conflict := negb (nodupb key_eqb (dec_keys (di_sig p))) ||
+                      existsb (fun k => existsb (fun d => Nat.eqb (sd_home d) s && decorates d k) (r_decs r))
                               (dec_keys (di_sig p)) in
       if conflict then guardb (negb (accepted ob)) 1201 else guardb (accepted ob) 1202
   | _ => []
